@@ -1,8 +1,1006 @@
-import Ptk.Model.C16
+/-
+  C16 — "Search lands on a real, nearest occurrence in the requested direction".
+
+  Property theorems over the model `Ptk.Model.C16` (Document.find / find_backwards,
+  Buffer._search with its wrap-around loops and repeat count, apply_search,
+  document_for_search, get_search_position, and the incremental-search key session).
+  All theorems hold for every character comparison `eq` (so for case-sensitive search and for
+  ignore-case search alike), every history, text, cursor, needle (the empty one included),
+  direction, `include_current_position`, repeat count and key sequence.
+
+  Vocabulary (defined in C16Scan / C16Search):
+    OccAt eq sub t p        the text t splits as pre ++ m ++ post, |pre| = p, sub matches m
+    Occ eq ls sub j q       entry j of the history ls exists and OccAt … (entry ls j) q
+    AheadF incl w c j q     (j,q) is ahead of the cursor (w,c) travelling forward
+    AheadB sub  w c j q     (j,q) is ahead of the cursor travelling backward (occurrence ends ≤ c)
+    Before a b              document order on (entry, offset) pairs
+    WF ls (w,c) / BufWF b   0 ≤ w < len(lines), 0 ≤ c ≤ len(lines[w])
+-/
+import Ptk.Props.C16Search
 namespace Ptk.C16
 open Ptk.Py
 
-theorem prefixBy_nil (eq : Char → Char → Bool) (t : Text) : prefixBy eq [] t = true := by
-  cases t <;> rfl
+/-! ## one search step -/
+
+/-- SOUND: a successful step lands on a real occurrence of the needle (in range). -/
+theorem search_sound (eq : Char → Char → Bool) (ls : List Text) (sub : Text) (dir : Dir)
+    (incl : Bool) (w c i p : Nat) (hwf : WF ls (w, c))
+    (h : searchOnce eq ls sub dir incl (w, c) = some (i, p)) : Occ eq ls sub i p := by
+  have hw : w < ls.length := hwf.1
+  cases dir with
+  | fwd =>
+    rcases searchOnce_fwd_cases eq ls sub incl w c i p hwf h with
+      ⟨rfl, _, ho, _⟩ | ⟨_, _, hi, _, ho, _⟩ | ⟨_, _, rfl, ho, _⟩
+    · exact ⟨hw, ho⟩
+    · exact ⟨hi, ho⟩
+    · exact ⟨by omega, ho⟩
+  | bwd =>
+    rcases searchOnce_bwd_cases eq ls sub incl w c i p hwf h with
+      ⟨rfl, _, ho, _⟩ | ⟨_, hi, _, ho, _⟩ | ⟨_, _, rfl, ho, _⟩
+    · exact ⟨hw, ho⟩
+    · exact ⟨by omega, ho⟩
+    · exact ⟨by omega, ho⟩
+
+/-- the result of a step is again a valid (entry, cursor) pair -/
+theorem search_wf (eq : Char → Char → Bool) (ls : List Text) (sub : Text) (dir : Dir)
+    (incl : Bool) (p r : Nat × Nat) (hwf : WF ls p)
+    (h : searchOnce eq ls sub dir incl p = some r) : WF ls r := by
+  obtain ⟨w, c⟩ := p
+  obtain ⟨i, q⟩ := r
+  obtain ⟨h1, h2⟩ := search_sound eq ls sub dir incl w c i q hwf h
+  exact ⟨h1, by have := occAt_le h2; simp only; omega⟩
+
+/-- NEAREST, forward: whenever an occurrence lies ahead, the result lies ahead too and no
+    occurrence ahead comes before it in document order (nothing between old and new position is
+    skipped). -/
+theorem search_nearest_fwd (eq : Char → Char → Bool) (ls : List Text) (sub : Text) (incl : Bool)
+    (w c i p : Nat) (hwf : WF ls (w, c))
+    (h : searchOnce eq ls sub .fwd incl (w, c) = some (i, p))
+    (j q : Nat) (hocc : Occ eq ls sub j q) (hah : AheadF incl w c j q) :
+    AheadF incl w c i p ∧ ¬ Before (j, q) (i, p) := by
+  obtain ⟨hj, ho⟩ := hocc
+  rcases searchOnce_fwd_cases eq ls sub incl w c i p hwf h with
+    ⟨rfl, hp, _, hmin⟩ | ⟨hnone, hwi, _, hbetween, _, hmin⟩ | ⟨hnone, hlater, _, _, _⟩
+  · refine ⟨Or.inl ⟨rfl, hp⟩, ?_⟩
+    rcases hah with ⟨rfl, hq⟩ | hlt
+    · rintro (hb | ⟨_, hb⟩)
+      · simp at hb
+      · exact hmin q hq hb ho
+    · rintro (hb | ⟨hb, _⟩) <;> simp only at hb <;> omega
+  · refine ⟨Or.inr hwi, ?_⟩
+    rcases hah with ⟨rfl, hq⟩ | hlt
+    · exact absurd ho (hnone q hq)
+    · rintro (hb | ⟨hb, hb2⟩)
+      · exact hbetween j hlt hb q ho
+      · simp only at hb hb2; subst hb; exact hmin q hb2 ho
+  · rcases hah with ⟨rfl, hq⟩ | hlt
+    · exact absurd ho (hnone q hq)
+    · exact absurd ho (hlater j hlt hj q)
+
+/-- COMPLETE, forward: an occurrence ahead is always found. -/
+theorem search_complete_fwd (eq : Char → Char → Bool) (ls : List Text) (sub : Text) (incl : Bool)
+    (w c : Nat) (hwf : WF ls (w, c))
+    (j q : Nat) (hocc : Occ eq ls sub j q) (hah : AheadF incl w c j q) :
+    ∃ r, searchOnce eq ls sub .fwd incl (w, c) = some r := by
+  cases h : searchOnce eq ls sub .fwd incl (w, c) with
+  | some r => exact ⟨r, rfl⟩
+  | none =>
+    obtain ⟨hnone, hlater, _⟩ := searchOnce_fwd_none eq ls sub incl w c hwf h
+    obtain ⟨hj, ho⟩ := hocc
+    rcases hah with ⟨rfl, hq⟩ | hlt
+    · exact absurd ho (hnone q hq)
+    · exact absurd ho (hlater j hlt hj q)
+
+/-- WRAP-AROUND, forward (DESIGN §8 O2): if nothing lies ahead, a successful step can only be the
+    loop's last index `len % len = 0`: the FIRST occurrence of entry 0. -/
+theorem search_wrap_fwd (eq : Char → Char → Bool) (ls : List Text) (sub : Text) (incl : Bool)
+    (w c i p : Nat) (hwf : WF ls (w, c))
+    (h : searchOnce eq ls sub .fwd incl (w, c) = some (i, p))
+    (hno : ∀ j q, Occ eq ls sub j q → ¬ AheadF incl w c j q) :
+    i = 0 ∧ Occ eq ls sub 0 p ∧ ∀ q, q < p → ¬ Occ eq ls sub 0 q := by
+  have hw : w < ls.length := hwf.1
+  rcases searchOnce_fwd_cases eq ls sub incl w c i p hwf h with
+    ⟨rfl, hp, ho, _⟩ | ⟨_, hwi, hi, _, ho, _⟩ | ⟨_, _, rfl, ho, hmin⟩
+  · exact absurd (Or.inl ⟨rfl, hp⟩) (hno i p ⟨hw, ho⟩)
+  · exact absurd (Or.inr hwi) (hno i p ⟨hi, ho⟩)
+  · exact ⟨rfl, ⟨by omega, ho⟩, fun q hq hocc => hmin q hq hocc.2⟩
+
+/-- a forward step fails exactly when the needle occurs neither ahead nor in entry 0 -/
+theorem search_none_iff_fwd (eq : Char → Char → Bool) (ls : List Text) (sub : Text) (incl : Bool)
+    (w c : Nat) (hwf : WF ls (w, c)) :
+    searchOnce eq ls sub .fwd incl (w, c) = none ↔
+      (∀ j q, Occ eq ls sub j q → ¬ AheadF incl w c j q) ∧ ∀ q, ¬ Occ eq ls sub 0 q := by
+  have hw : w < ls.length := hwf.1
+  constructor
+  · intro h
+    obtain ⟨hnone, hlater, h0⟩ := searchOnce_fwd_none eq ls sub incl w c hwf h
+    refine ⟨?_, fun q ho => h0 q ho.2⟩
+    rintro j q ⟨hj, ho⟩ (⟨rfl, hq⟩ | hlt)
+    · exact hnone q hq ho
+    · exact hlater j hlt hj q ho
+  · rintro ⟨hno, h0⟩
+    cases h : searchOnce eq ls sub .fwd incl (w, c) with
+    | none => rfl
+    | some r =>
+      obtain ⟨i, p⟩ := r
+      obtain ⟨rfl, ho, _⟩ := search_wrap_fwd eq ls sub incl w c i p hwf h hno
+      exact absurd ho (h0 p)
+
+/-- NEAREST, backward: whenever an occurrence lies ahead (i.e. before the cursor), the result does
+    too and no occurrence ahead comes after it in document order. -/
+theorem search_nearest_bwd (eq : Char → Char → Bool) (ls : List Text) (sub : Text) (incl : Bool)
+    (w c i p : Nat) (hwf : WF ls (w, c))
+    (h : searchOnce eq ls sub .bwd incl (w, c) = some (i, p))
+    (j q : Nat) (hocc : Occ eq ls sub j q) (hah : AheadB sub w c j q) :
+    AheadB sub w c i p ∧ ¬ Before (i, p) (j, q) := by
+  obtain ⟨hj, ho⟩ := hocc
+  rcases searchOnce_bwd_cases eq ls sub incl w c i p hwf h with
+    ⟨rfl, hp, _, hmax⟩ | ⟨hnone, hiw, hbetween, _, hmax⟩ | ⟨hnone, hearlier, _, _, _⟩
+  · refine ⟨Or.inl ⟨rfl, hp⟩, ?_⟩
+    rcases hah with ⟨rfl, hq⟩ | hlt
+    · rintro (hb | ⟨_, hb⟩)
+      · simp at hb
+      · exact hmax q hb hq ho
+    · rintro (hb | ⟨hb, _⟩) <;> simp only at hb <;> omega
+  · refine ⟨Or.inr hiw, ?_⟩
+    rcases hah with ⟨rfl, hq⟩ | hlt
+    · exact absurd ho (hnone q hq)
+    · rintro (hb | ⟨hb, hb2⟩)
+      · exact hbetween j hb hlt q ho
+      · simp only at hb hb2; subst hb; exact hmax q hb2 ho
+  · rcases hah with ⟨rfl, hq⟩ | hlt
+    · exact absurd ho (hnone q hq)
+    · exact absurd ho (hearlier j hlt q)
+
+/-- COMPLETE, backward -/
+theorem search_complete_bwd (eq : Char → Char → Bool) (ls : List Text) (sub : Text) (incl : Bool)
+    (w c : Nat) (hwf : WF ls (w, c))
+    (j q : Nat) (hocc : Occ eq ls sub j q) (hah : AheadB sub w c j q) :
+    ∃ r, searchOnce eq ls sub .bwd incl (w, c) = some r := by
+  cases h : searchOnce eq ls sub .bwd incl (w, c) with
+  | some r => exact ⟨r, rfl⟩
+  | none =>
+    obtain ⟨hnone, hearlier, _⟩ := searchOnce_bwd_none eq ls sub incl w c hwf h
+    obtain ⟨hj, ho⟩ := hocc
+    rcases hah with ⟨rfl, hq⟩ | hlt
+    · exact absurd ho (hnone q hq)
+    · exact absurd ho (hearlier j hlt q)
+
+/-- WRAP-AROUND, backward: if nothing lies ahead, a successful step can only be the loop's last
+    index `-1 % len`: the LAST occurrence of the last entry. -/
+theorem search_wrap_bwd (eq : Char → Char → Bool) (ls : List Text) (sub : Text) (incl : Bool)
+    (w c i p : Nat) (hwf : WF ls (w, c))
+    (h : searchOnce eq ls sub .bwd incl (w, c) = some (i, p))
+    (hno : ∀ j q, Occ eq ls sub j q → ¬ AheadB sub w c j q) :
+    i = ls.length - 1 ∧ Occ eq ls sub (ls.length - 1) p ∧
+      ∀ q, p < q → ¬ Occ eq ls sub (ls.length - 1) q := by
+  have hw : w < ls.length := hwf.1
+  rcases searchOnce_bwd_cases eq ls sub incl w c i p hwf h with
+    ⟨rfl, hp, ho, _⟩ | ⟨_, hiw, _, ho, _⟩ | ⟨_, _, rfl, ho, hmax⟩
+  · exact absurd (Or.inl ⟨rfl, hp⟩) (hno i p ⟨hw, ho⟩)
+  · exact absurd (Or.inr hiw) (hno i p ⟨by omega, ho⟩)
+  · exact ⟨rfl, ⟨by omega, ho⟩, fun q hq hocc => hmax q hq hocc.2⟩
+
+theorem search_none_iff_bwd (eq : Char → Char → Bool) (ls : List Text) (sub : Text) (incl : Bool)
+    (w c : Nat) (hwf : WF ls (w, c)) :
+    searchOnce eq ls sub .bwd incl (w, c) = none ↔
+      (∀ j q, Occ eq ls sub j q → ¬ AheadB sub w c j q) ∧
+        ∀ q, ¬ Occ eq ls sub (ls.length - 1) q := by
+  have hw : w < ls.length := hwf.1
+  constructor
+  · intro h
+    obtain ⟨hnone, hearlier, h0⟩ := searchOnce_bwd_none eq ls sub incl w c hwf h
+    refine ⟨?_, fun q ho => h0 q ho.2⟩
+    rintro j q ⟨hj, ho⟩ (⟨rfl, hq⟩ | hlt)
+    · exact hnone q hq ho
+    · exact hearlier j hlt q ho
+  · rintro ⟨hno, h0⟩
+    cases h : searchOnce eq ls sub .bwd incl (w, c) with
+    | none => rfl
+    | some r =>
+      obtain ⟨i, p⟩ := r
+      obtain ⟨rfl, ho, _⟩ := search_wrap_bwd eq ls sub incl w c i p hwf h hno
+      exact absurd ho (h0 p)
+
+
+/-! ## repeat counts (`for _ in range(count)`) -/
+
+theorem searchN_one (eq : Char → Char → Bool) (ls : List Text) (sub : Text) (dir : Dir)
+    (incl : Bool) (p : Nat × Nat) :
+    searchN eq ls sub dir incl 1 p = searchOnce eq ls sub dir incl p := by
+  simp only [searchN]
+  cases searchOnce eq ls sub dir incl p <;> rfl
+
+/-- a count of `a + b` is a count of `a` followed by a count of `b`; it fails as a whole if
+    either part fails -/
+theorem searchN_add (eq : Char → Char → Bool) (ls : List Text) (sub : Text) (dir : Dir)
+    (incl : Bool) (a b : Nat) (p : Nat × Nat) :
+    searchN eq ls sub dir incl (a + b) p =
+      (searchN eq ls sub dir incl a p).bind (searchN eq ls sub dir incl b) := by
+  induction a generalizing p with
+  | zero => simp [searchN]
+  | succ a ih =>
+    rw [show a + 1 + b = (a + b) + 1 by omega]
+    simp only [searchN]
+    cases searchOnce eq ls sub dir incl p with
+    | none => simp
+    | some p' => simp [ih]
+
+theorem searchN_wf (eq : Char → Char → Bool) (ls : List Text) (sub : Text) (dir : Dir)
+    (incl : Bool) (k : Nat) (p r : Nat × Nat) (hwf : WF ls p)
+    (h : searchN eq ls sub dir incl k p = some r) : WF ls r := by
+  induction k generalizing p with
+  | zero => simp [searchN] at h; subst h; exact hwf
+  | succ k ih =>
+    simp only [searchN] at h
+    cases hs : searchOnce eq ls sub dir incl p with
+    | none => simp [hs] at h
+    | some p' =>
+      simp only [hs] at h
+      exact ih p' (search_wf eq ls sub dir incl p p' hwf hs) h
+
+/-- SOUND for every repeat count ≥ 1 -/
+theorem searchN_sound (eq : Char → Char → Bool) (ls : List Text) (sub : Text) (dir : Dir)
+    (incl : Bool) (k : Nat) (hk : 0 < k) (p : Nat × Nat) (i q : Nat) (hwf : WF ls p)
+    (h : searchN eq ls sub dir incl k p = some (i, q)) : Occ eq ls sub i q := by
+  induction k generalizing p with
+  | zero => omega
+  | succ k ih =>
+    simp only [searchN] at h
+    cases hs : searchOnce eq ls sub dir incl p with
+    | none => simp [hs] at h
+    | some p' =>
+      simp only [hs] at h
+      cases k with
+      | zero =>
+        simp [searchN] at h; subst h
+        exact search_sound eq ls sub dir incl p.1 p.2 i q hwf hs
+      | succ k =>
+        exact ih (by omega) p' (search_wf eq ls sub dir incl p p' hwf hs) h
+
+/-! ## Buffer level: apply_search, document_for_search, get_search_position -/
+
+/-- `0 ≤ working_index < len(_working_lines)` and `0 ≤ cursor_position ≤ len(text)` -/
+def BufWF (b : Buf) : Prop := WF b.lines (b.widx, b.cur)
+
+theorem applySearch_eq (eq : Char → Char → Bool) (b : Buf) (sub : Text) (dir : Dir) (incl : Bool)
+    (k : Nat) (hwf : BufWF b) :
+    applySearch eq b sub dir incl k =
+      match search eq b sub dir incl k with
+      | none => b
+      | some (i, c) => { lines := b.lines, widx := i, cur := c } := by
+  unfold applySearch
+  cases hs : search eq b sub dir incl k with
+  | none => rfl
+  | some r =>
+    obtain ⟨i, c⟩ := r
+    have hr := searchN_wf eq b.lines sub dir incl k _ _ hwf hs
+    obtain ⟨_, hc⟩ := hr
+    simp only at hc
+    simp only [setCur, setWidx, Buf.text]
+    split <;> simp_all [Nat.min_eq_left]
+
+/-- searching never changes any text -/
+theorem applySearch_frame (eq : Char → Char → Bool) (b : Buf) (sub : Text) (dir : Dir)
+    (incl : Bool) (k : Nat) : (applySearch eq b sub dir incl k).lines = b.lines := by
+  unfold applySearch
+  cases search eq b sub dir incl k with
+  | none => rfl
+  | some r =>
+    simp only [setCur, setWidx]
+    split <;> rfl
+
+theorem applySearch_wf (eq : Char → Char → Bool) (b : Buf) (sub : Text) (dir : Dir) (incl : Bool)
+    (k : Nat) (hwf : BufWF b) : BufWF (applySearch eq b sub dir incl k) := by
+  rw [applySearch_eq eq b sub dir incl k hwf]
+  cases hs : search eq b sub dir incl k with
+  | none => exact hwf
+  | some r => exact searchN_wf eq b.lines sub dir incl k _ _ hwf hs
+
+/-- C16, first sentence: applying a search (any direction, case setting, repeat count) either
+    leaves the buffer exactly as it was, or moves to a position where the needle really occurs. -/
+theorem applySearch_unchanged_or_occ (eq : Char → Char → Bool) (b : Buf) (sub : Text) (dir : Dir)
+    (incl : Bool) (k : Nat) (hk : 0 < k) (hwf : BufWF b) :
+    applySearch eq b sub dir incl k = b ∨
+      Occ eq b.lines sub (applySearch eq b sub dir incl k).widx
+        (applySearch eq b sub dir incl k).cur := by
+  rw [applySearch_eq eq b sub dir incl k hwf]
+  cases hs : search eq b sub dir incl k with
+  | none => left; rfl
+  | some r =>
+    obtain ⟨i, c⟩ := r
+    right
+    exact searchN_sound eq b.lines sub dir incl k hk _ i c hwf hs
+
+/-- C16, forward: if an occurrence lies ahead, the search finds one (complete), it lies ahead,
+    it is a real occurrence (sound) and no occurrence ahead precedes it (nearest). -/
+theorem applySearch_nearest_fwd (eq : Char → Char → Bool) (b : Buf) (sub : Text) (incl : Bool)
+    (hwf : BufWF b) (j q : Nat) (hocc : Occ eq b.lines sub j q)
+    (hah : AheadF incl b.widx b.cur j q) :
+    let b' := applySearch eq b sub .fwd incl 1
+    Occ eq b.lines sub b'.widx b'.cur ∧ AheadF incl b.widx b.cur b'.widx b'.cur ∧
+      ¬ Before (j, q) (b'.widx, b'.cur) := by
+  intro b'
+  obtain ⟨r, hr⟩ := search_complete_fwd eq b.lines sub incl b.widx b.cur hwf j q hocc hah
+  obtain ⟨i, p⟩ := r
+  have hb' : b' = { lines := b.lines, widx := i, cur := p } := by
+    show applySearch eq b sub .fwd incl 1 = _
+    rw [applySearch_eq eq b sub .fwd incl 1 hwf]
+    simp [search, searchN_one, hr]
+  rw [hb']
+  have := search_nearest_fwd eq b.lines sub incl b.widx b.cur i p hwf hr j q hocc hah
+  exact ⟨search_sound eq b.lines sub .fwd incl b.widx b.cur i p hwf hr, this.1, this.2⟩
+
+/-- C16, backward -/
+theorem applySearch_nearest_bwd (eq : Char → Char → Bool) (b : Buf) (sub : Text) (incl : Bool)
+    (hwf : BufWF b) (j q : Nat) (hocc : Occ eq b.lines sub j q)
+    (hah : AheadB sub b.widx b.cur j q) :
+    let b' := applySearch eq b sub .bwd incl 1
+    Occ eq b.lines sub b'.widx b'.cur ∧ AheadB sub b.widx b.cur b'.widx b'.cur ∧
+      ¬ Before (b'.widx, b'.cur) (j, q) := by
+  intro b'
+  obtain ⟨r, hr⟩ := search_complete_bwd eq b.lines sub incl b.widx b.cur hwf j q hocc hah
+  obtain ⟨i, p⟩ := r
+  have hb' : b' = { lines := b.lines, widx := i, cur := p } := by
+    show applySearch eq b sub .bwd incl 1 = _
+    rw [applySearch_eq eq b sub .bwd incl 1 hwf]
+    simp [search, searchN_one, hr]
+  rw [hb']
+  have := search_nearest_bwd eq b.lines sub incl b.widx b.cur i p hwf hr j q hocc hah
+  exact ⟨search_sound eq b.lines sub .bwd incl b.widx b.cur i p hwf hr, this.1, this.2⟩
+
+/-- a repeat count is all-or-nothing: if any of the `k` steps finds nothing, nothing moves -/
+theorem applySearch_count_none (eq : Char → Char → Bool) (b : Buf) (sub : Text) (dir : Dir)
+    (incl : Bool) (k : Nat) (h : search eq b sub dir incl k = none) :
+    applySearch eq b sub dir incl k = b := by
+  simp [applySearch, h]
+
+/-- … and otherwise count `k + 1` is one applied search followed by count `k` -/
+theorem applySearch_count_succ (eq : Char → Char → Bool) (b : Buf) (sub : Text) (dir : Dir)
+    (incl : Bool) (k : Nat) (hwf : BufWF b) (r : Nat × Nat)
+    (h : search eq b sub dir incl (k + 1) = some r) :
+    applySearch eq b sub dir incl (k + 1) =
+      applySearch eq (applySearch eq b sub dir incl 1) sub dir incl k := by
+  have h1 := h
+  simp only [search, searchN] at h1
+  cases hs : searchOnce eq b.lines sub dir incl (b.widx, b.cur) with
+  | none => simp [hs] at h1
+  | some p' =>
+    simp only [hs] at h1
+    have hb1 : applySearch eq b sub dir incl 1 = { lines := b.lines, widx := p'.1, cur := p'.2 } := by
+      rw [applySearch_eq eq b sub dir incl 1 hwf]
+      simp [search, searchN_one, hs]
+    have hwf1 : BufWF (applySearch eq b sub dir incl 1) := applySearch_wf eq b sub dir incl 1 hwf
+    rw [applySearch_eq eq b sub dir incl (k + 1) hwf, h,
+      applySearch_eq eq _ sub dir incl k hwf1, hb1]
+    simp only [search, h1]
+
+/-- PREVIEW = ACCEPT: the document shown while searching is exactly the (text, cursor) the buffer
+    has after `apply_search(…, include_current_position=True)`. -/
+theorem preview_eq_accept (eq : Char → Char → Bool) (b : Buf) (sub : Text) (dir : Dir)
+    (hwf : BufWF b) :
+    docForSearch eq b sub dir =
+      ((applySearch eq b sub dir true 1).text, (applySearch eq b sub dir true 1).cur) := by
+  rw [applySearch_eq eq b sub dir true 1 hwf]
+  unfold docForSearch
+  cases search eq b sub dir true 1 with
+  | none => rfl
+  | some r => rfl
+
+/-- `document_for_search` is a pure query -/
+theorem getSearchPosition_le (eq : Char → Char → Bool) (b : Buf) (sub : Text) (dir : Dir)
+    (incl : Bool) (k : Nat) (hwf : BufWF b) :
+    getSearchPosition eq b sub dir incl k ≤ b.text.length := by
+  unfold getSearchPosition
+  cases hs : search eq b sub dir incl k with
+  | none => exact hwf.2
+  | some r =>
+    obtain ⟨i, c⟩ := r
+    simp only
+    split
+    · exact hwf.2
+    · rename_i hi
+      simp at hi; subst hi
+      exact (searchN_wf eq b.lines sub dir incl k _ _ hwf hs).2
+
+/-- `get_search_position` (the Vi `n` / `N` motions): the cursor stays, or it goes to a place in
+    THIS text where the needle occurs — never to a position that belongs to another entry. -/
+theorem getSearchPosition_sound (eq : Char → Char → Bool) (b : Buf) (sub : Text) (dir : Dir)
+    (incl : Bool) (k : Nat) (hk : 0 < k) (hwf : BufWF b) :
+    getSearchPosition eq b sub dir incl k = b.cur ∨
+      OccAt eq sub b.text (getSearchPosition eq b sub dir incl k) := by
+  unfold getSearchPosition
+  cases hs : search eq b sub dir incl k with
+  | none => left; rfl
+  | some r =>
+    obtain ⟨i, c⟩ := r
+    simp only
+    split
+    · left; rfl
+    · rename_i hi
+      simp at hi; subst hi
+      right
+      exact (searchN_sound eq b.lines sub dir incl k hk _ _ c hwf hs).2
+
+/-- … and an occurrence ahead in the current text is found, the nearest one -/
+theorem getSearchPosition_nearest_fwd (eq : Char → Char → Bool) (b : Buf) (sub : Text)
+    (incl : Bool) (hwf : BufWF b) (q : Nat) (hocc : OccAt eq sub b.text q)
+    (hq : b.cur + lo incl ≤ q) :
+    OccAt eq sub b.text (getSearchPosition eq b sub .fwd incl 1) ∧
+      b.cur + lo incl ≤ getSearchPosition eq b sub .fwd incl 1 ∧
+      getSearchPosition eq b sub .fwd incl 1 ≤ q := by
+  have ho : Occ eq b.lines sub b.widx q := ⟨hwf.1, hocc⟩
+  have hah : AheadF incl b.widx b.cur b.widx q := Or.inl ⟨rfl, hq⟩
+  obtain ⟨r, hr⟩ := search_complete_fwd eq b.lines sub incl b.widx b.cur hwf _ q ho hah
+  obtain ⟨i, p⟩ := r
+  obtain ⟨hah', hnb⟩ := search_nearest_fwd eq b.lines sub incl b.widx b.cur i p hwf hr _ q ho hah
+  have hsnd := search_sound eq b.lines sub .fwd incl b.widx b.cur i p hwf hr
+  have hi : i = b.widx := by
+    rcases hah' with ⟨h, _⟩ | h
+    · exact h
+    · exact absurd (Or.inl h) hnb
+  subst hi
+  have hg : getSearchPosition eq b sub .fwd incl 1 = p := by
+    simp [getSearchPosition, search, searchN_one, hr]
+  rw [hg]
+  refine ⟨hsnd.2, ?_, ?_⟩
+  · rcases hah' with ⟨_, h⟩ | h
+    · exact h
+    · omega
+  · by_contra hlt
+    exact hnb (Or.inr ⟨rfl, by simp only; omega⟩)
+
+theorem getSearchPosition_nearest_bwd (eq : Char → Char → Bool) (b : Buf) (sub : Text)
+    (incl : Bool) (hwf : BufWF b) (q : Nat) (hocc : OccAt eq sub b.text q)
+    (hq : q + sub.length ≤ b.cur) :
+    OccAt eq sub b.text (getSearchPosition eq b sub .bwd incl 1) ∧
+      getSearchPosition eq b sub .bwd incl 1 + sub.length ≤ b.cur ∧
+      q ≤ getSearchPosition eq b sub .bwd incl 1 := by
+  have ho : Occ eq b.lines sub b.widx q := ⟨hwf.1, hocc⟩
+  have hah : AheadB sub b.widx b.cur b.widx q := Or.inl ⟨rfl, hq⟩
+  obtain ⟨r, hr⟩ := search_complete_bwd eq b.lines sub incl b.widx b.cur hwf _ q ho hah
+  obtain ⟨i, p⟩ := r
+  obtain ⟨hah', hnb⟩ := search_nearest_bwd eq b.lines sub incl b.widx b.cur i p hwf hr _ q ho hah
+  have hsnd := search_sound eq b.lines sub .bwd incl b.widx b.cur i p hwf hr
+  have hi : i = b.widx := by
+    rcases hah' with ⟨h, _⟩ | h
+    · exact h
+    · exact absurd (Or.inl h) hnb
+  subst hi
+  have hg : getSearchPosition eq b sub .bwd incl 1 = p := by
+    simp [getSearchPosition, search, searchN_one, hr]
+  rw [hg]
+  refine ⟨hsnd.2, ?_, ?_⟩
+  · rcases hah' with ⟨_, h⟩ | h
+    · exact h
+    · omega
+  · by_contra hlt
+    exact hnb (Or.inr ⟨rfl, by simp only; omega⟩)
+
+
+/-! ## what "occurs" means for the two comparisons the driver uses -/
+
+theorem match_eqCS (a m : Text) : Match eqCS a m ↔ a = m := by
+  induction a generalizing m with
+  | nil => cases m <;> simp [Match]
+  | cons x xs ih =>
+    cases m with
+    | nil => simp [Match]
+    | cons y ys => simp [Match, List.forall₂_cons, eqCS] at ih ⊢
+
+/-- case-sensitive search: an occurrence is a literal copy of the needle -/
+theorem occAt_eqCS (sub t : Text) (p : Nat) :
+    OccAt eqCS sub t p ↔ ∃ pre post, t = pre ++ sub ++ post ∧ pre.length = p := by
+  constructor
+  · rintro ⟨pre, m, post, h, hp, hm⟩
+    rw [match_eqCS] at hm; subst hm
+    exact ⟨pre, post, h, hp⟩
+  · rintro ⟨pre, post, h, hp⟩
+    exact ⟨pre, sub, post, h, hp, (match_eqCS _ _).2 rfl⟩
+
+theorem match_eqCI (a m : Text) : Match eqCI a m ↔ a.map foldAscii = m.map foldAscii := by
+  induction a generalizing m with
+  | nil => cases m <;> simp [Match]
+  | cons x xs ih =>
+    cases m with
+    | nil => simp [Match]
+    | cons y ys => simp [Match, List.forall₂_cons, eqCI] at ih ⊢; simp [ih]
+
+/-- ignore-case search: an occurrence is a stretch of text equal to the needle after case folding -/
+theorem occAt_eqCI (sub t : Text) (p : Nat) :
+    OccAt eqCI sub t p ↔
+      ∃ pre m post, t = pre ++ m ++ post ∧ pre.length = p ∧
+        m.map foldAscii = sub.map foldAscii := by
+  constructor
+  · rintro ⟨pre, m, post, h, hp, hm⟩
+    exact ⟨pre, m, post, h, hp, ((match_eqCI _ _).1 hm).symm⟩
+  · rintro ⟨pre, m, post, h, hp, hm⟩
+    exact ⟨pre, m, post, h, hp, (match_eqCI _ _).2 hm.symm⟩
+
+/-- the character under an occurrence of a non-empty needle matches the needle's first character -/
+theorem occAt_head (eq : Char → Char → Bool) (a : Char) (as t : Text) (p : Nat)
+    (h : OccAt eq (a :: as) t p) : ∃ ch, t[p]? = some ch ∧ eq a ch = true := by
+  obtain ⟨pre, m, post, rfl, rfl, hm⟩ := h
+  cases hm with
+  | @cons _ ch _ ms hxy _ =>
+    exact ⟨ch, by simp, hxy⟩
+
+
+theorem toNat_ofNat_valid (n : Nat) (h : n.isValidChar) : (Char.ofNat n).toNat = n := by
+  unfold Char.ofNat
+  rw [dif_pos h]
+  simp [Char.ofNatAux, Char.toNat]
+
+/-- ASCII case folding never produces or consumes a newline -/
+theorem foldAscii_eq_nl (c : Char) (h : foldAscii c = '\n') : c = '\n' := by
+  unfold foldAscii at h
+  split at h
+  · rename_i hr
+    exfalso
+    have a1 : 65 ≤ c.toNat := hr.1
+    have a2 : c.toNat ≤ 90 := hr.2
+    have := congrArg Char.toNat h
+    rw [toNat_ofNat_valid _ (by unfold Nat.isValidChar; omega)] at this
+    simp at this
+  · exact h
+
+
+/-! ## the key session -/
+
+def SessWF (s : Sess) : Prop := BufWF s.buf
+
+theorem viFix_lines (b : Buf) : (viFix b).lines = b.lines ∧ (viFix b).widx = b.widx := by
+  unfold viFix
+  split <;> simp
+
+theorem viFix_cur_le (b : Buf) : (viFix b).cur ≤ b.cur := by
+  unfold viFix
+  split <;> simp
+
+theorem viFix_wf (b : Buf) (h : BufWF b) : BufWF (viFix b) := by
+  obtain ⟨h1, h2⟩ := h
+  have hl := viFix_lines b
+  have hc := viFix_cur_le b
+  refine ⟨?_, ?_⟩
+  · show (viFix b).widx < (viFix b).lines.length
+    rw [hl.1, hl.2]; exact h1
+  · show (viFix b).cur ≤ (entry (viFix b).lines (viFix b).widx).length
+    rw [hl.1, hl.2]; simp only at h2; omega
+
+/-- the Vi cursor fix does nothing on a character that is not a newline -/
+theorem viFix_id (b : Buf) (ch : Char) (h : b.text[b.cur]? = some ch) (hn : ch ≠ '\n') :
+    viFix b = b := by
+  have : (ch == '\n') = false := by simpa using hn
+  simp [viFix, viAtEolNonEmpty, h, this]
+
+theorem entry_set (ls : List Text) (w : Nat) (t : Text) (hw : w < ls.length) :
+    entry (ls.set w t) w = t := by
+  simp [entry, List.getD, hw]
+
+/-- every key keeps `0 ≤ working_index < len(lines)` and `0 ≤ cursor ≤ len(text)` -/
+theorem step_wf (eq : Char → Char → Bool) (vi : Bool) (s : Sess) (k : Key) (h : SessWF s) :
+    SessWF (step eq vi s k) := by
+  unfold SessWF at *
+  cases k with
+  | start d => simp only [step]; split <;> exact h
+  | type c =>
+    simp only [step]
+    split
+    · exact h
+    · split
+      · exact h
+      · obtain ⟨h1, h2⟩ := h
+        simp only at h1 h2
+        refine ⟨by simpa using h1, ?_⟩
+        simp only [Buf.text]
+        rw [entry_set _ _ _ h1]
+        simp
+        omega
+  | backspace =>
+    simp only [step]
+    split
+    · split
+      · split
+        · exact viFix_wf _ h
+        · exact h
+      · exact h
+    · exact h
+  | incr d =>
+    simp only [step]
+    split
+    · split
+      · exact applySearch_wf eq _ _ _ _ _ h
+      · exact h
+    · exact h
+  | accept =>
+    simp only [step]
+    split
+    · split
+      · exact viFix_wf _ (applySearch_wf eq _ _ _ _ _ h)
+      · exact applySearch_wf eq _ _ _ _ _ h
+    · exact h
+  | abort =>
+    simp only [step]
+    split
+    · split
+      · exact viFix_wf _ h
+      · exact h
+    · exact h
+  | next n =>
+    simp only [step]
+    split
+    · exact viFix_wf _ (applySearch_wf eq _ _ _ _ _ h)
+    · exact h
+  | prev n =>
+    simp only [step]
+    split
+    · exact viFix_wf _ (applySearch_wf eq _ _ _ _ _ h)
+    · exact h
+
+theorem run_wf (eq : Char → Char → Bool) (vi : Bool) (s : Sess) (ks : List Key) (h : SessWF s) :
+    SessWF (run eq vi s ks) := by
+  induction ks generalizing s with
+  | nil => exact h
+  | cons k ks ih => exact ih _ (step_wf eq vi s k h)
+
+/-- TYPING: a key typed into the search field changes the field and nothing else — not the
+    searched buffer's text, entry or cursor, not the search state. (Both editing modes.) -/
+theorem type_frame (eq : Char → Char → Bool) (vi : Bool) (s : Sess) (c : Char)
+    (h : s.searching = true) :
+    step eq vi s (.type c) = { s with field := s.field ++ [c] } := by
+  simp [step, h]
+
+/-- … for any number of typed characters -/
+theorem run_type_frame (eq : Char → Char → Bool) (vi : Bool) (s : Sess) (cs : List Char)
+    (h : s.searching = true) :
+    run eq vi s (cs.map .type) = { s with field := s.field ++ cs } := by
+  induction cs generalizing s with
+  | nil => simp [run]
+  | cons c cs ih =>
+    simp only [List.map_cons, run]
+    rw [type_frame eq vi s c h, ih { s with field := s.field ++ [c] } h]
+    simp
+
+/-- deleting in the search field does not touch the searched buffer either (in Vi mode backspace
+    in an EMPTY field leaves the search instead) -/
+theorem backspace_frame (eq : Char → Char → Bool) (vi : Bool) (s : Sess)
+    (h : s.searching = true) (hne : vi = false ∨ s.field ≠ []) :
+    (step eq vi s .backspace).buf = s.buf ∧ (step eq vi s .backspace).searching = true := by
+  simp only [step, h, if_true]
+  split
+  · rename_i he
+    rcases hne with rfl | hne
+    · simp [h]
+    · simp at he; exact absurd he hne
+  · simp
+
+/-- starting a search moves nothing -/
+theorem start_frame (eq : Char → Char → Bool) (vi : Bool) (s : Sess) (d : Dir) :
+    (step eq vi s (.start d)).buf = s.buf := by
+  simp only [step]; split <;> rfl
+
+/-- aborting moves nothing (Emacs mode; in Vi mode only the navigation-mode cursor fix applies) -/
+theorem abort_frame (eq : Char → Char → Bool) (vi : Bool) (s : Sess) :
+    (step eq vi s .abort).buf = (if vi && s.searching then viFix s.buf else s.buf) := by
+  simp only [step]
+  cases s.searching <;> cases vi <;> simp [stopSearch, step.viFixS]
+
+/-- no search key ever changes any text of the buffer / history -/
+theorem step_lines_frame (eq : Char → Char → Bool) (vi : Bool) (s : Sess) (k : Key)
+    (hk : (∀ c, k ≠ .type c) ∨ s.searching = true) :
+    (step eq vi s k).buf.lines = s.buf.lines := by
+  cases k with
+  | start d => simp only [step]; split <;> rfl
+  | type c =>
+    rcases hk with hk | hk
+    · exact absurd rfl (hk c)
+    · simp [step, hk]
+  | backspace =>
+    simp only [step]
+    split
+    · split
+      · split
+        · exact (viFix_lines _).1
+        · rfl
+      · rfl
+    · rfl
+  | incr d =>
+    simp only [step]
+    split
+    · split
+      · exact applySearch_frame ..
+      · rfl
+    · rfl
+  | accept =>
+    simp only [step]
+    split
+    · split
+      · exact (viFix_lines _).1.trans (applySearch_frame ..)
+      · exact applySearch_frame ..
+    · rfl
+  | abort =>
+    simp only [step]
+    split
+    · split
+      · exact (viFix_lines _).1
+      · rfl
+    · rfl
+  | next n =>
+    simp only [step]
+    split
+    · exact (viFix_lines _).1.trans (applySearch_frame ..)
+    · rfl
+  | prev n =>
+    simp only [step]
+    split
+    · exact (viFix_lines _).1.trans (applySearch_frame ..)
+    · rfl
+
+/-- PREVIEW = ACCEPT, end to end: while something is typed in the search field, the document on
+    screen is exactly the (text, cursor) the buffer has after pressing Enter. -/
+theorem session_preview_eq_accept (eq : Char → Char → Bool) (s : Sess) (hwf : SessWF s)
+    (hs : s.searching = true) (hf : s.field ≠ []) :
+    preview eq s = ((step eq false s .accept).buf.text, (step eq false s .accept).buf.cur) := by
+  have hne : s.field.isEmpty = false := by simpa using hf
+  simp only [preview, step, hs, hne, stopSearch]
+  simp only [Bool.not_false, Bool.and_self, if_true, Bool.false_eq_true, if_false]
+  exact preview_eq_accept eq s.buf s.field s.sdir hwf
+
+/-- in Vi mode accepting does the same and then applies the navigation-mode cursor fix -/
+theorem session_accept_vi (eq : Char → Char → Bool) (s : Sess) (hs : s.searching = true) :
+    (step eq true s .accept).buf = viFix (step eq false s .accept).buf := by
+  simp [step, hs, stopSearch, step.viFixS]
+
+/-- ACCEPT is sound: Enter leaves the buffer where it was or on a real occurrence of the typed
+    needle; the search field is left and cleared. -/
+theorem session_accept_sound (eq : Char → Char → Bool) (s : Sess) (hwf : SessWF s)
+    (hs : s.searching = true) (hf : s.field ≠ []) :
+    let s' := step eq false s .accept
+    (s'.buf = s.buf ∨ Occ eq s.buf.lines s.field s'.buf.widx s'.buf.cur) ∧
+      s'.searching = false ∧ s'.field = [] ∧ s'.stext = s.field := by
+  have hne : s.field.isEmpty = false := by simpa using hf
+  simp only [step, hs, hne, stopSearch]
+  simp only [Bool.not_false, if_true, Bool.false_eq_true, if_false, and_self, and_true]
+  exact applySearch_unchanged_or_occ eq s.buf s.field s.sdir true 1 (by omega) hwf
+
+/-- NEXT / PREVIOUS while searching (C-r / C-s / Up / Down): same direction ⇒ one search step that
+    excludes the current position; changed direction ⇒ nothing moves. -/
+theorem session_incr (eq : Char → Char → Bool) (vi : Bool) (s : Sess) (d : Dir)
+    (hs : s.searching = true) :
+    (step eq vi s (.incr d)).buf =
+      (if s.sdir = d then applySearch eq s.buf s.field d false 1 else s.buf) ∧
+    (step eq vi s (.incr d)).stext = s.field ∧ (step eq vi s (.incr d)).sdir = d := by
+  simp only [step, hs, if_true]
+  by_cases h : s.sdir = d <;> simp [h]
+
+theorem session_incr_sound (eq : Char → Char → Bool) (vi : Bool) (s : Sess) (d : Dir)
+    (hwf : SessWF s) (hs : s.searching = true) :
+    (step eq vi s (.incr d)).buf = s.buf ∨
+      Occ eq s.buf.lines s.field (step eq vi s (.incr d)).buf.widx
+        (step eq vi s (.incr d)).buf.cur := by
+  rw [(session_incr eq vi s d hs).1]
+  split
+  · exact applySearch_unchanged_or_occ eq s.buf s.field d false 1 (by omega) hwf
+  · left; rfl
+
+/-- Vi `n` / `N`: `count` search steps with the remembered needle in the remembered / opposite
+    direction, then the navigation-mode cursor fix -/
+theorem session_next_prev (eq : Char → Char → Bool) (s : Sess) (n : Nat)
+    (hs : s.searching = false) :
+    (step eq true s (.next n)).buf = viFix (applySearch eq s.buf s.stext s.sdir false n) ∧
+    (step eq true s (.prev n)).buf = viFix (applySearch eq s.buf s.stext s.sdir.inv false n) := by
+  simp [step, hs, step.viFixS]
+
+
+/-- `¬ Before a b` reads "b is a, or b comes before a" (document order is total) -/
+theorem not_before_iff (a b : Nat × Nat) : ¬ Before a b ↔ (b = a ∨ Before b a) := by
+  obtain ⟨a1, a2⟩ := a
+  obtain ⟨b1, b2⟩ := b
+  simp only [Before, Prod.mk.injEq]
+  omega
+
+/-! ## Vi mode: landing on an occurrence is not disturbed by the navigation-mode cursor fix -/
+
+theorem viFix_on_occ (eq : Char → Char → Bool) (b : Buf) (a : Char) (as : Text)
+    (hnl : ∀ ch, eq a ch = true → ch ≠ '\n') (h : OccAt eq (a :: as) b.text b.cur) :
+    viFix b = b := by
+  obtain ⟨ch, h1, h2⟩ := occAt_head eq a as b.text b.cur h
+  exact viFix_id b ch h1 (hnl ch h2)
+
+theorem nl_eqCS (a : Char) (ha : a ≠ '\n') : ∀ ch, eqCS a ch = true → ch ≠ '\n' := by
+  intro ch h
+  simp [eqCS] at h
+  subst h; exact ha
+
+theorem nl_eqCI (a : Char) (ha : a ≠ '\n') : ∀ ch, eqCI a ch = true → ch ≠ '\n' := by
+  intro ch h hc
+  simp [eqCI] at h
+  subst hc
+  exact ha (foldAscii_eq_nl a (by rw [h]; rfl))
+
+/-- ACCEPT in Vi mode (needle not starting with a newline): the buffer is where it was (up to the
+    navigation-mode cursor fix) or exactly on the occurrence the search found. -/
+theorem session_accept_vi_sound (eq : Char → Char → Bool) (s : Sess) (hwf : SessWF s)
+    (hs : s.searching = true) (a : Char) (as : Text) (hf : s.field = a :: as)
+    (hnl : ∀ ch, eq a ch = true → ch ≠ '\n') :
+    let s' := step eq true s .accept
+    s'.buf = viFix s.buf ∨
+      (s'.buf = (step eq false s .accept).buf ∧
+        Occ eq s.buf.lines s.field s'.buf.widx s'.buf.cur) := by
+  intro s'
+  have hvi : s'.buf = viFix (step eq false s .accept).buf := session_accept_vi eq s hs
+  have hne : s.field ≠ [] := by rw [hf]; simp
+  obtain ⟨hsound, _⟩ := session_accept_sound eq s hwf hs hne
+  rcases hsound with h | h
+  · left; rw [hvi, h]
+  · right
+    have hl : (step eq false s .accept).buf.lines = s.buf.lines :=
+      step_lines_frame eq false s .accept (Or.inl (by intro c; simp))
+    have hfix : viFix (step eq false s .accept).buf = (step eq false s .accept).buf := by
+      apply viFix_on_occ eq _ a as hnl
+      rw [← hf]
+      simpa [Buf.text, hl] using h.2
+    rw [hvi, hfix]
+    exact ⟨rfl, h⟩
+
+/-- Vi `n` / `N` land on an occurrence of the remembered needle or stay (up to the cursor fix) -/
+theorem session_next_sound (eq : Char → Char → Bool) (s : Sess) (hwf : SessWF s) (n : Nat)
+    (hn : 0 < n) (hs : s.searching = false) (a : Char) (as : Text) (hf : s.stext = a :: as)
+    (hnl : ∀ ch, eq a ch = true → ch ≠ '\n') (k : Key) (hk : k = .next n ∨ k = .prev n) :
+    (step eq true s k).buf = viFix s.buf ∨
+      Occ eq s.buf.lines s.stext (step eq true s k).buf.widx (step eq true s k).buf.cur := by
+  obtain ⟨h1, h2⟩ := session_next_prev eq s n hs
+  have key : ∀ d, viFix (applySearch eq s.buf s.stext d false n) = viFix s.buf ∨
+      Occ eq s.buf.lines s.stext (viFix (applySearch eq s.buf s.stext d false n)).widx
+        (viFix (applySearch eq s.buf s.stext d false n)).cur := by
+    intro d
+    rcases applySearch_unchanged_or_occ eq s.buf s.stext d false n hn hwf with h | h
+    · left; rw [h]
+    · right
+      have hfix : viFix (applySearch eq s.buf s.stext d false n) =
+          applySearch eq s.buf s.stext d false n := by
+        apply viFix_on_occ eq _ a as hnl
+        rw [← hf]
+        simpa [Buf.text, applySearch_frame] using h.2
+      rw [hfix]; exact h
+  rcases hk with rfl | rfl
+  · rw [h1]; exact key _
+  · rw [h2]; exact key _
+
+/-! ## non-vacuity: the hypotheses of the theorems hold on concrete, non-trivial states
+    (and the model computes what the real editor shows there) -/
+
+section examples
+
+private def ab : Text := ['a', 'b']
+/-- history entry "ab", current text "xab ab" -/
+private def L1 : List Text := [['a', 'b'], ['x', 'a', 'b', ' ', 'a', 'b']]
+theorem occ_of (eq : Char → Char → Bool) (sub t : Text) (p : Nat)
+    (h1 : p ≤ t.length) (h2 : prefixBy eq sub (t.drop p) = true) : OccAt eq sub t p :=
+  (occAt_iff_prefixBy eq sub t p).2 ⟨h1, h2⟩
+
+-- findFirst_some_iff / docFind_some_iff / docFindBack_some_iff: overlapping occurrences,
+-- regex metacharacters are literal, the cursor position is excluded on request
+example : findFirst eqCS ['a', 'a'] ['b', 'a', 'a', 'a'] = some 1 := by decide
+example : docFind eqCS ['a', 'a', 'a'] 0 ['a', 'a'] false = some 1 := by decide
+example : docFind eqCS ['a', 'a', 'a'] 0 ['a', 'a'] true = some 0 := by decide
+example : docFind eqCS ['a', '.', '*', 'b'] 0 ['.', '*'] true = some 1 := by decide
+example : docFind eqCS ['a', 'x', 'b'] 0 ['.', '*'] true = none := by decide
+example : docFindBack eqCS ['a', 'a', 'a'] 3 ['a', 'a'] = some (-2) := by decide
+example : docFindBack eqCS ['a', 'a', 'a'] 2 ['a', 'a'] = some (-2) := by decide
+example : docFindBack eqCI ['x', 'A', 'b'] 3 ['a', 'B'] = some (-2) := by decide
+example : docFindBack eqCS ['x', 'A', 'b'] 3 ['a', 'B'] = none := by decide
+
+-- search_sound, search_nearest_fwd, search_complete_fwd, search_wf (forward, same entry)
+example : WF L1 (1, 1) ∧ searchOnce eqCS L1 ab .fwd false (1, 1) = some (1, 4) ∧
+    Occ eqCS L1 ab 1 4 ∧ AheadF false 1 1 1 4 :=
+  ⟨by unfold WF; decide, by decide, ⟨by decide, occ_of _ _ _ _ (by decide) (by decide)⟩,
+    by unfold AheadF; decide⟩
+-- … with the current position included the occurrence under the cursor is the nearest
+example : searchOnce eqCS L1 ab .fwd true (1, 1) = some (1, 1) := by decide
+-- search_nearest_bwd / search_complete_bwd: within the entry, then into the previous entry
+example : WF L1 (1, 3) ∧ searchOnce eqCS L1 ab .bwd true (1, 3) = some (1, 1) ∧
+    Occ eqCS L1 ab 1 1 ∧ AheadB ab 1 3 1 1 :=
+  ⟨by unfold WF; decide, by decide, ⟨by decide, occ_of _ _ _ _ (by decide) (by decide)⟩,
+    by unfold AheadB; decide⟩
+example : searchOnce eqCS L1 ab .bwd true (1, 2) = some (0, 0) ∧ AheadB ab 1 2 0 0 :=
+  ⟨by decide, by unfold AheadB; decide⟩
+-- ignore-case on / off
+example : searchOnce eqCI [['x', 'A', 'b']] ab .fwd true (0, 0) = some (0, 1) ∧
+    searchOnce eqCS [['x', 'A', 'b']] ab .fwd true (0, 0) = none := ⟨by decide, by decide⟩
+
+-- search_wrap_fwd: nothing ahead, the loop's last index revisits entry 0 (DESIGN O2) …
+example : searchOnce eqCS L1 ab .fwd false (1, 4) = some (0, 0) ∧
+    (∀ j q, Occ eqCS L1 ab j q → ¬ AheadF false 1 4 j q) := by
+  refine ⟨by decide, ?_⟩
+  rintro j q ⟨hj, ho⟩ (⟨rfl, hq⟩ | hlt)
+  · have := occAt_le ho
+    simp [L1, ab, entry, lo] at this hq
+    omega
+  · simp [L1] at hj; omega
+-- … but ONLY entry 0: an occurrence in a middle entry behind the cursor is not revisited
+-- (search_none_iff_fwd / search_none_iff_bwd; not a violation: it is not "ahead")
+example : searchOnce eqCS [['x'], ['a', 'b'], ['y']] ab .fwd false (2, 0) = none ∧
+    searchOnce eqCS [['x'], ['a', 'b'], ['y']] ab .bwd false (0, 0) = none ∧
+    Occ eqCS [['x'], ['a', 'b'], ['y']] ab 1 0 :=
+  ⟨by decide, by decide, by decide, occ_of _ _ _ _ (by decide) (by decide)⟩
+
+-- searchN_sound / searchN_add / applySearch_count_*: three steps back through the history,
+-- a fourth wraps around to the last entry
+example : searchN eqCS L1 ab .bwd false 3 (1, 6) = some (0, 0) ∧
+    searchN eqCS L1 ab .bwd false 4 (1, 6) = some (1, 4) := ⟨by decide, by decide⟩
+-- all-or-nothing: the second step fails, so nothing moves although the first would succeed
+example : applySearch eqCS ⟨[['x', 'a', 'b']], 0, 0⟩ ['x'] .bwd false 1 = ⟨[['x', 'a', 'b']], 0, 0⟩ ∧
+    applySearch eqCS ⟨[['x', 'a', 'b']], 0, 3⟩ ['x'] .bwd false 1 = ⟨[['x', 'a', 'b']], 0, 0⟩ ∧
+    applySearch eqCS ⟨[['x', 'a', 'b'], ['y']], 1, 0⟩ ['x'] .bwd false 2 = ⟨[['x', 'a', 'b'], ['y']], 1, 0⟩ :=
+  ⟨by decide, by decide, by decide⟩
+
+-- applySearch_unchanged_or_occ / applySearch_nearest_* / preview_eq_accept on a state where the
+-- search moves into another entry
+example : BufWF ⟨L1, 1, 2⟩ ∧ applySearch eqCS ⟨L1, 1, 2⟩ ab .bwd true 1 = ⟨L1, 0, 0⟩ ∧
+    docForSearch eqCS ⟨L1, 1, 2⟩ ab .bwd = (['a', 'b'], 0) :=
+  ⟨by unfold BufWF WF; decide, by decide, by decide⟩
+
+-- getSearchPosition_sound: the witness of the repaired defect (DESIGN §8 / known_findings C16):
+-- the only match is in the OTHER entry (at offset 4); the cursor must stay at 0
+example : search eqCS ⟨[['x', 'x', 'x', 'x', 'a', 'b'], ['a', 'b', ' ', 'h']], 1, 0⟩ ab .fwd false 1
+      = some (0, 4) ∧
+    getSearchPosition eqCS ⟨[['x', 'x', 'x', 'x', 'a', 'b'], ['a', 'b', ' ', 'h']], 1, 0⟩ ab .fwd false 1
+      = 0 := ⟨by decide, by decide⟩
+-- getSearchPosition_nearest_fwd / _bwd
+example : getSearchPosition eqCS ⟨L1, 1, 1⟩ ab .fwd false 1 = 4 ∧
+    getSearchPosition eqCS ⟨L1, 1, 6⟩ ab .bwd false 1 = 4 := ⟨by decide, by decide⟩
+
+/-- C-r a b … in Emacs mode on history ["ab"], text "xab ab", cursor at the end -/
+private def S0 : Sess :=
+  { buf := ⟨L1, 1, 6⟩, field := [], stext := [], sdir := .fwd, searching := false }
+
+-- type_frame / run_type_frame / session_preview_eq_accept / session_accept_sound:
+-- typing shows the preview at (entry 1, 4) and leaves the real cursor at 6; Enter goes to 4
+example : SessWF S0 ∧
+    (run eqCS false S0 [.start .bwd, .type 'a', .type 'b']).buf = ⟨L1, 1, 6⟩ ∧
+    preview eqCS (run eqCS false S0 [.start .bwd, .type 'a', .type 'b'])
+      = (['x', 'a', 'b', ' ', 'a', 'b'], 4) ∧
+    (run eqCS false S0 [.start .bwd, .type 'a', .type 'b', .accept]).buf = ⟨L1, 1, 4⟩ :=
+  ⟨by unfold SessWF BufWF WF; decide, by decide, by decide, by decide⟩
+-- session_incr: C-r C-r walks 4 → 1 → history entry 0; a direction change does not move
+example : (run eqCS false S0 [.start .bwd, .type 'a', .type 'b', .incr .bwd, .incr .bwd, .incr .bwd]).buf
+      = ⟨L1, 0, 0⟩ ∧
+    (run eqCS false S0 [.start .bwd, .type 'a', .type 'b', .incr .bwd, .incr .fwd]).buf = ⟨L1, 1, 4⟩ :=
+  ⟨by decide, by decide⟩
+-- abort_frame: C-g keeps what C-r already did (and only that)
+example : (run eqCS false S0 [.start .bwd, .type 'a', .type 'b', .incr .bwd, .abort]).buf = ⟨L1, 1, 4⟩ ∧
+    (run eqCS false S0 [.start .bwd, .type 'a', .type 'b', .abort]).buf = ⟨L1, 1, 6⟩ :=
+  ⟨by decide, by decide⟩
+-- session_next_prev / session_next_sound / session_accept_vi_sound (Vi mode: cursor fix 6 → 5 first)
+example : (run eqCS true { S0 with buf := viFix S0.buf } [.start .bwd, .type 'a', .type 'b', .accept]).buf
+      = ⟨L1, 1, 1⟩ ∧
+    (run eqCS true { S0 with buf := viFix S0.buf }
+      [.start .bwd, .type 'a', .type 'b', .accept, .next 1, .prev 2]).buf = ⟨L1, 1, 4⟩ :=
+  ⟨by decide, by decide⟩
+-- viFix
+example : viFix ⟨[['a', 'b', '\n', 'c']], 0, 2⟩ = ⟨[['a', 'b', '\n', 'c']], 0, 1⟩ ∧
+    viFix ⟨[['a', 'b', '\n', '\n', 'c']], 0, 3⟩ = ⟨[['a', 'b', '\n', '\n', 'c']], 0, 3⟩ ∧
+    viFix ⟨[['a', 'b']], 0, 2⟩ = ⟨[['a', 'b']], 0, 1⟩ := ⟨by decide, by decide, by decide⟩
+
+/-! ### observations (behaviour the property does not forbid, recorded exactly) -/
+
+/-- OBSERVATION (backward travel): an occurrence that STARTS before the cursor but extends past
+    it (here "ab" at 2 in "abab", cursor 3) is not seen by the backward search — `find_backwards`
+    looks at the text before the cursor only.  C16 speaks of occurrences lying between the old and
+    the new position; `AheadB` therefore requires the occurrence to end at or before the cursor. -/
+example : searchOnce eqCS [['a', 'b', 'a', 'b']] ab .bwd true (0, 3) = some (0, 0) ∧
+    OccAt eqCS ab ['a', 'b', 'a', 'b'] 2 :=
+  ⟨by decide, occ_of _ _ _ _ (by decide) (by decide)⟩
+
+/-- OBSERVATION (empty search field): Enter in an EMPTY field re-applies the previous needle, while
+    the preview — which only looks at the field — shows the unmoved document.  The property
+    quantifies over non-empty needles; `session_preview_eq_accept` needs `field ≠ []`. -/
+example :
+    let s := run eqCS false S0 [.start .bwd, .type 'a', .type 'b', .accept, .start .bwd]
+    s.field = [] ∧ preview eqCS s = (['x', 'a', 'b', ' ', 'a', 'b'], 4) ∧
+      (step eqCS false s .accept).buf = ⟨L1, 1, 1⟩ := by decide
+
+end examples
 
 end Ptk.C16
